@@ -66,7 +66,8 @@ class StreamingDetector(ABC):
                     raise ValueError(
                         "Columns of new data must match with columns of prior data."
                     )
-            ary = X.values
+            # a private copy, as for every other container: `.values` may be a live view
+            ary = X.values.copy()
         else:
             ary = copy.copy(X)
             ary = np.array(ary)
@@ -247,7 +248,8 @@ class BatchDetector(ABC):
                     raise ValueError(
                         "Columns of new data must match with columns of prior data."
                     )
-            ary = X.values
+            # a private copy, as for every other container: `.values` may be a live view
+            ary = X.values.copy()
         else:
             ary = copy.copy(X)
             ary = np.array(ary)
